@@ -31,12 +31,18 @@ PROP = "C14"
 WEIGHTS = {"sim": 2, "tc": 1, "proto": 4, "ptc": 8, "upd": 1, "ov": 2, "ss": 0, "clear": 1, "read": 3}
 
 
-def check_make_protocol(steps: list) -> dict | None:
-    """make_protocol's cumulative index against the specification's boundaries (pure arithmetic)."""
+def check_make_protocol(steps: list, salt: int = 0) -> dict | None:
+    """make_protocol's table against the specification's steps: cumulative index = boundaries, every value bound
+    to the parameter the step NAMES it for, whatever the key order of the step dicts (pure arithmetic)."""
+    import math
+
     from mxlpy import make_protocol
 
-    prot = make_protocol([(s["d"] * simkit.TS, {"kin": s["p"]["kin"] * simkit.PS, "k": s["p"]["kk"] * simkit.PS})
-                          for s in steps])
+    written = simkit.step_dicts(steps, simkit.SMALL, salt)
+    try:
+        prot = make_protocol(written)
+    except Exception as e:  # noqa: BLE001
+        return {"what": "make_protocol-raised", "steps_as_written": written, "observed": f"{type(e).__name__}: {e}"[:200]}
     got = [float(v) for v in prot.index.total_seconds()]
     cum, exp = 0, []
     for s in steps:
@@ -46,8 +52,10 @@ def check_make_protocol(steps: list) -> dict | None:
         return {"what": "make_protocol-index", "expected": exp, "observed": got}
     for i, s in enumerate(steps):
         row = prot.iloc[i].to_dict()
-        e = {"kin": s["p"]["kin"] * simkit.PS, "k": s["p"]["kk"] * simkit.PS}
-        if set(row) != set(e) or any(not simkit.tclose(float(row[n]), e[n]) for n in e):
+        e = {n: v * simkit.PS for n, v in (("kin", s["p"]["kin"]), ("k", s["p"]["kk"])) if v != simkit.KEEP}
+        # a parameter the step does not name: no column at all, or a missing-value cell
+        extra = [n for n in row if n not in e and not (isinstance(row[n], float) and math.isnan(row[n]))]
+        if extra or any(n not in row or not simkit.tclose(float(row[n]), e[n]) for n in e):
             return {"what": "make_protocol-values", "step": i, "expected": e, "observed": row}
     return None
 
@@ -55,7 +63,7 @@ def check_make_protocol(steps: list) -> dict | None:
 def _replay(h):
     for j, s in enumerate(h):
         if s["op"]["k"] in ("proto", "ptc"):
-            bad = check_make_protocol(s["op"]["steps"])
+            bad = check_make_protocol(s["op"]["steps"], salt=j) or check_make_protocol(s["op"]["steps"], salt=j + 1)
             if bad:
                 return {**bad, "step": j}, {}
     return simkit.replay_renderings(h)
@@ -105,6 +113,8 @@ def grid_classes(h: list) -> set:
         out.add("repeated-values")
     if len({s["d"] for s in op["steps"]}) > 1:
         out.add("unequal-durations")
+    if any(simkit.KEEP in (s["p"]["kin"], s["p"]["kk"]) for s in op["steps"]):
+        out.add("step-omitting-a-parameter")
     kins = [s["p"]["kin"] for s in op["steps"]]
     if 0 in kins:
         out.add("zero-valued-step")
@@ -134,7 +144,7 @@ def generate(ctx: Ctx, rep: Report) -> list:
 
     def go(job):
         tag, cfg, kw, _ = job
-        return ctx.tlc("SimulatorProto.tla", cfg, tag=tag, **kw)
+        return ctx.tlc("SimulatorProto.tla", cfg, tag=tag, **{"workers": 8, **kw})
 
     with ThreadPoolExecutor(len(jobs)) as ex:
         results = list(ex.map(go, jobs))
@@ -174,7 +184,7 @@ def run(ctx: Ctx) -> int:
     need = ["before-start", "on-start", "on-boundary", "between", "beyond-end", "relative", "absolute", "refused",
             "accepted", "continued", "fresh", "steps=1", "steps=2", "steps=3", "repeated-values", "unequal-durations",
             "after-override", "proto/n=1", "proto/n=2", "just-after-start", "just-after-boundary",
-            "views-read-before-protocol", "zero-valued-step", "off-phase-between-non-zero-steps",
+            "views-read-before-protocol", "zero-valued-step", "off-phase-between-non-zero-steps", "step-omitting-a-parameter",
             "same-relative-grid-used-twice-on-continued-simulator"]
     missing = [c for c in need if classes[c] == 0]
     if missing:
@@ -198,6 +208,7 @@ def run(ctx: Ctx) -> int:
             worst = max(worst, stats.get("worst", 0.0))
             nvals += stats.get("n", 0)
     rep.notes["values_compared_with_closed_form"] = nvals
+    c04.rendering_notes(rep, outs)
     rep.notes["worst_error_over_tolerance"] = round(worst, 4)
     rep.notes["fragile_rows_judged_at_integrator_atol(|x|<1e-1)"] = sum(st.get("fragile", 0) for _, st in outs)
     for h in hs[:: max(1, len(hs) // 3)][:3]:
